@@ -196,7 +196,8 @@ class Quantity:
         elif ufunc in [np.sin, np.cos, np.tan]:
             return Quantity(ufunc(inputs[0].value('rad')))
         elif ufunc in [np.arcsin, np.arccos, np.arctan]:
-            return Quantity(ufunc(inputs[0].to(None).magnitude.value),'rad')
+            # the argument is read as a pure number; it is not converted in place
+            return Quantity(ufunc(self._convert(inputs[0].magnitude, inputs[0].baseunits, BaseUnits(None)).value),'rad')
         elif ufunc in [np.isnan, np.isnat]:
             return ufunc(inputs[0].magnitude.value)
         else:
